@@ -538,9 +538,9 @@ def find_worklists(prog, fn, sl0):
     return out
 
 
-def abstract_worklists(prog, sl0, fns):
+def abstract_worklists(prog, sl0, fns, seeds=None):
     """({fn path: [Worklist]}, slicer): the slicer gives reads of validated work lists their representative element;
-    it is sl0 itself when there is no work list"""
+    it is sl0 itself when there is no work list (`seeds`: values of built lists that sl0 carries, see built_lists)"""
     wls = {}
     for f in fns:
         ws = find_worklists(prog, f, sl0)
@@ -548,29 +548,340 @@ def abstract_worklists(prog, sl0, fns):
             wls[f.path] = ws
     if not wls:
         return wls, sl0
-    slh = Slicer(prog)
+    slh = seeded_slicer(prog, seeds or {})
     for ws in wls.values():
         for w in ws:
             w.seed(slh)
     return wls, slh
 
 
+# ---- built lists: "plan, then execute" ---------------------------------------------------------------------------
+# `let mut files = Vec::new(); files.push(a); files.extend(xs.iter().map(f)); for p in files { remove_file(p) }` visits what
+# `for p in once(a).chain(xs.iter().map(f))` visits.  The slicer knows a Vec only by its constructor; a list that is
+# *built, then only read* is given the equivalent iterator expression as its value, which lib/iters.py decomposes
+# (literal rows, mapped tables, ...) for loops, adapters and the unrolling of effects alike.
+# Conditions (otherwise the list keeps its opaque value and whatever is read from it stays unknown):
+#   * every use of the list is a build step through `&mut` (push / insert / extend / extend_from_slice, neutral capacity
+#     calls), a shared borrow, or a move (followed to the new owner); no element is ever taken out or changed;
+#   * every build step has happened exactly once when any read happens: its block dominates every read and is not on
+#     a cycle — or it is the body of a `for` loop over a table of literal rows that runs to exhaustion before any read
+#     (one element per row, the loop variable replaced by the row).  A step outside loops that does not dominate every
+#     read is kept as a *filtered* stage: its elements may be in the list (MAY facts) but are not relied on (MUST facts).
+IT_ = 'std::iter::Iterator::'
+BUILD = {'push': 'PUSH', 'push_back': 'PUSH', 'push_front': 'PUSH', 'insert': 'PUSH', 'extend': 'EXTEND',
+         'extend_from_slice': 'EXTEND', 'reserve': 'NEUTRAL', 'reserve_exact': 'NEUTRAL', 'shrink_to_fit': 'NEUTRAL'}
+READ_ONLY = {'len', 'is_empty', 'capacity'}
+
+
+def _build_role(call):
+    if call.indirect:
+        return None
+    for n in (call.res, call.name, call.decl):
+        if not n or '::' not in n:
+            continue
+        owner, last = n.rsplit('::', 1)
+        if last in BUILD and ('Vec' in owner or n == 'std::iter::Extend::extend'):
+            if last == 'extend' and not any('Vec' in (x or '') for x in (call.res, call.name)):
+                continue
+            return BUILD[last]
+        if last in READ_ONLY and 'Vec' in owner:
+            return 'NEUTRAL'
+    return None
+
+
+class BuiltList:
+    def __init__(self, fn, local):
+        self.fn = fn
+        self.local = local
+        self.steps = []         # build Calls
+        self.reads = set()      # blocks that read / consume the list
+
+    def _trace_ref(self, r, seen):
+        fn = self.fn
+        if r in seen:
+            return True
+        seen.add(r)
+        for bi, kind, idx, how, pl in fn.uses_of(r):
+            if kind == 'drop':
+                continue
+            if kind == 'stmt':
+                st = fn.blocks[bi]['s'][idx]
+                dest, rv = st[1], st[2]
+                if [p for p in pl[1:] if p != '*'] or len(dest) != 1 or rv['r'] not in ('ref', 'use', 'cfd'):
+                    return False
+                if not self._trace_ref(dest[0], seen):
+                    return False
+                continue
+            if kind == 'arg' and idx == 0:
+                c = fn.call_at(bi)
+                role = _build_role(c)
+                if role is None:
+                    return False
+                if role != 'NEUTRAL':
+                    self.steps.append(c)
+                continue
+            return False
+        return True
+
+    def _trace(self, loc, seen):
+        fn = self.fn
+        if loc in seen:
+            return True
+        seen.add(loc)
+        if loc != self.local and (len(fn.whole_defs(loc)) != 1 or fn.partial_defs(loc)):
+            return False
+        for bi, kind, idx, how, pl in fn.uses_of(loc):
+            if kind == 'drop':
+                continue
+            if kind == 'stmt':
+                st = fn.blocks[bi]['s'][idx]
+                dest, rv = st[1], st[2]
+                projected = bool(pl[1:])
+                if rv['r'] == 'ref':
+                    if rv.get('mut'):
+                        if projected or len(dest) != 1 or not self._trace_ref(dest[0], set()):
+                            return False
+                    else:
+                        self.reads.add(bi)
+                    continue
+                if rv['r'] in ('use', 'cfd') and not projected and len(dest) == 1:
+                    # moved to a new owner: the same list
+                    if not self._trace(dest[0], seen):
+                        return False
+                    continue
+                if rv['r'] in ('use', 'cfd', 'len', 'discr'):
+                    self.reads.add(bi)
+                    continue
+                return False
+            if kind == 'arg':
+                self.reads.add(bi)      # consumed by a call (into_iter, a function taking the list)
+                continue
+            return False
+        return True
+
+    def shape_ok(self):
+        return self._trace(self.local, set()) and bool(self.steps)
+
+    def value(self, prog, sl0, sl):
+        """the equivalent iterator expression, or None when "built exactly once before every read" is not established"""
+        from .lib.effects import find_loops
+        from .lib.guards import edge_dominates
+        from .lib import iters
+        from .lib.value import subst as _vsubst
+        fn = self.fn
+        dom = fn.dominators()
+        loops = None
+        parts = []
+        for c in self.steps:
+            if c.target is None:
+                return None
+            role = _build_role(c)
+            xv = sl.operand(fn, c.args[-1])
+            piece = ('call', 'std::iter::once', (xv,), None) if role == 'PUSH' else xv
+            if not fn.in_loop(c.bb):
+                if not all(r != c.bb and fn.dominates(c.bb, r) for r in self.reads):
+                    # a conditional build step (or one that comes after some read): the elements MAY be in the list —
+                    # rendered as a filtered stage, which MUST facts skip and MAY facts include
+                    piece = ('call', IT_ + 'filter', (piece, ('unknown', 'conditional build step')), None)
+                parts.append(((len(dom.get(c.bb, ())), 0), [piece]))
+                continue
+            if loops is None:
+                loops = find_loops(fn, sl)
+            Ls = [L for L in loops if c.bb in L.body and c.bb != L.header]
+            if len(Ls) != 1:
+                return None
+            L = Ls[0]
+            if getattr(L, 'exhaust', None) is None or L.collection is None or any(r in L.body for r in self.reads):
+                return None
+            preds = fn.preds()
+            if any(fn.in_loop(q) for q in preds[L.header] if q not in L.body):
+                return None
+            if not all(fn.dominates(c.bb, l) or c.bb == l for l in L.latches):
+                return None
+            # the step runs once per iteration: it is not on a cycle that avoids the loop head
+            seen, work = set(), [t for t in fn.succs(c.bb)]
+            while work:
+                b = work.pop()
+                if b in seen or b == L.header:
+                    continue
+                seen.add(b)
+                work.extend(fn.succs(b))
+            if c.bb in seen:
+                return None
+            if not all(edge_dominates(fn, L.exhaust[0], L.exhaust[1], r) for r in self.reads):
+                return None
+            al = iters.alts(sl, L.collection)
+            if not al or any(fa is not None or flt for _, fa, flt in al):
+                return None
+            key = iters.loop_key(L.collection)
+            rows = []
+            for e, _fa, _flt in al:
+                rows.append(_vsubst(piece, {'__repl__': [(key, e)]}, sl))
+            parts.append(((len(dom.get(L.header, ())), 1), rows))
+        parts.sort(key=lambda x: x[0])
+        base = sl0.local(fn, self.local)
+        ctor = (base[1] or '').rsplit('::', 1)[-1] if base[0] == 'call' else None
+        empty = ctor in CTOR and 'Vec' in base[1] and len(base[2]) == (1 if ctor == 'with_capacity' else 0)
+        seq = [] if empty else [base]
+        for _, ps in parts:
+            seq.extend(ps)
+        if not seq:
+            return None
+        out = seq[0]
+        for x in seq[1:]:
+            out = ('call', IT_ + 'chain', (out, x), None)
+        return out
+
+
+def built_lists(prog, sl0):
+    """{(fn path, local): iterator expression} for the built-then-read lists of the workspace (see above)"""
+    crates = set(prog.crate_names())
+    found = []
+    for f in prog.fns.values():
+        if f.crate not in crates and f.path.split('::')[0] not in crates:
+            continue
+        for i, l in enumerate(f.locals):
+            if i <= f.argc or not (l.get('ty') or '').startswith(LIST_TYPES):
+                continue
+            defs = f.whole_defs(i)
+            # the root of a list is where it is created (a call); a local it is later moved to is the same list and is
+            # followed from the root (judged on its own it would lose what was built before the move)
+            if len(defs) != 1 or defs[0][0] != 'call' or f.partial_defs(i):
+                continue
+            b = BuiltList(f, i)
+            if b.shape_ok():
+                found.append(b)
+    if not found:
+        return {}
+    sl = Slicer(prog)
+    seeds = {}
+    for _ in range(2):          # a second pass lets a list built from another built list see that one's value
+        for b in found:
+            v = b.value(prog, sl0, sl)
+            if v is not None:
+                seeds[(b.fn.path, b.local)] = v
+        sl = seeded_slicer(prog, seeds)
+    return seeds
+
+
+def seeded_slicer(prog, seeds, base=None):
+    if not seeds:
+        return base if base is not None else Slicer(prog)
+    sl = Slicer(prog)
+    for k, v in seeds.items():
+        sl._cache[k] = v
+    return sl
+
+
 # ---- MUST effects through work lists ------------------------------------------------------------------------------
-class EffectsX(Effects):
+class EffectsC(Effects):
+    """Effects whose MUST facts are context-sensitive in the same way its MAY facts already are (Effects.feasible): a
+    success site that sits under `param is Variant V` cannot be the way the function succeeded when the call chain
+    passed a literal of another variant, so it does not take part in "effects common to every success site".
+    `executor(Plan::Recreate(..))` thereby has the MUST effects of the Recreate arm of `executor`, like the same arm
+    written in place."""
+
+    # a loop over what a private helper returns (`for p in planned_files(dir, name)`) is a loop over the helper's
+    # (built / collected / literal) list: the collection is opened with inline_deep when that makes it decompose into
+    # rows; the loop variable keeps its name (the key of the original collection)
+    def _opened(self, coll, must=False):
+        from .lib import iters
+        if coll is None or not iters.trivial(iters.alts(self.slicer, coll), coll):
+            return None
+        if not any(x[0] == 'call' and x[1] in self.prog.fns for x in walk(coll)):
+            return None
+        iv = self.slicer.inline_deep(coll)
+        if iv == coll:
+            return None
+        if must and any(x[0] == 'phi' for x in walk(iv)):
+            return None         # a helper with alternative results: the rows of one alternative are not MUST facts
+        al = iters.alts(self.slicer, iv)
+        return None if iters.trivial(al, iv) else al
+
+    def _unrollable(self, fn, c):
+        r = Effects._unrollable(self, fn, c)
+        if r is not None:
+            return r
+        best = None
+        for L in self.loops(fn):
+            if c.bb in L.body and c.bb != L.header and L.collection is not None:
+                if best is None or len(L.body) < len(best.body):
+                    best = L
+        if best is not None and self._opened(best.collection) is not None:
+            return best.collection
+        return None
+
+    def _expand_call(self, fn, c, forall, mode, mapping, chain, stack, out):
+        if forall is not None:
+            al = self._opened(forall, mode == 'must')
+            if al is not None:
+                from .lib import iters
+                key = iters.loop_key(forall)
+                for elem, fa, filtered in al:
+                    if filtered and mode == 'must':
+                        continue
+                    m = dict(mapping)
+                    m['__repl__'] = list(mapping.get('__repl__', ())) + [(key, self.subst(elem, mapping))]
+                    self._expand_call1(fn, c, fa, mode, m, chain, stack, out)
+                return
+        return Effects._expand_call(self, fn, c, forall, mode, mapping, chain, stack, out)
+
+    def live_sites(self, fn, mapping):
+        ss = self.sites(fn)
+        if not mapping:
+            return ss
+        return [st for st in ss if self.feasible(fn, st.bb, mapping)]
+
+    def expand(self, fn, mode='must', site_bbs=None, mapping=None, chain=(), _stack=None):
+        if not (mode == 'must' and site_bbs is None and mapping):
+            return Effects.expand(self, fn, mode, site_bbs, mapping, chain, _stack)
+        _stack = _stack or ()
+        if fn.path in _stack or len(_stack) > self.max_depth:
+            return Effects.expand(self, fn, mode, site_bbs, mapping, chain, _stack)
+        live = self.live_sites(fn, mapping)
+        if len(live) == len(self.sites(fn)):
+            return Effects.expand(self, fn, mode, site_bbs, mapping, chain, _stack)
+        stack = _stack + (fn.path,)
+        per_site = []
+        for st in live:
+            effs = []
+            for c, forall in self.must_calls(fn, [st.bb]):
+                self._expand_call(fn, c, forall, 'must', mapping, chain, stack, effs)
+            per_site.append(effs)
+        return _common_effects(per_site)
+
+
+def _common_effects(per_site):
+    if not per_site:
+        return []
+    common = None
+    for effs in per_site:
+        ks = {eff_key(e) for e in effs}
+        common = ks if common is None else (common & ks)
+    out, seen = [], set()
+    for e in per_site[0]:
+        k = eff_key(e)
+        if k in common and (k not in seen or e.kind not in GROUP):
+            out.append(e)
+            seen.add(k)
+    return out
+
+
+class EffectsX(EffectsC):
     def __init__(self, prog, slicer, worklists, vocab=None):
         Effects.__init__(self, prog, slicer, vocab)
         self.wls = worklists
 
     def expand(self, fn, mode='must', site_bbs=None, mapping=None, chain=(), _stack=None):
         if not (mode == 'must' and site_bbs is None and self.wls.get(fn.path)):
-            return Effects.expand(self, fn, mode, site_bbs, mapping, chain, _stack)
+            return EffectsC.expand(self, fn, mode, site_bbs, mapping, chain, _stack)
         mapping = mapping or {}
         _stack = _stack or ()
         if fn.path in _stack or len(_stack) > self.max_depth:
             return Effects.expand(self, fn, mode, site_bbs, mapping, chain, _stack)
         stack = _stack + (fn.path,)
         per_site = []
-        for st in self.sites(fn):
+        for st in self.live_sites(fn, mapping):
             effs = []
             for c, forall in self.must_calls(fn, [st.bb]):
                 self._expand_call(fn, c, forall, 'must', mapping, chain, stack, effs)
@@ -759,7 +1070,7 @@ def delete_roles(prog, sl, roles):
     if sh is None or th is None:
         return dflt
     rs, rt = prog.reach([sh]), prog.reach([th])
-    E = Effects(prog, sl)
+    E = EffectsC(prog, sl)
     cands = []
     for p in sorted(set(rs) & set(rt)):
         f = prog.fns[p]
@@ -781,7 +1092,7 @@ def delete_roles(prog, sl, roles):
 # ====================================================================================================================
 # Deepening round: permission fixing (R4), SBOM path shape (R2/sbom-path), recreate decisions (R5)
 # ====================================================================================================================
-from .lib.value import canon as _canon, vstr as _vstr        # noqa: E402
+from .lib.value import canon as _canon, vstr as _vstr, concat_parts        # noqa: E402
 from .lib.discard import ok_on_success as _ok_on_success     # noqa: E402
 
 OWNER_RWX = 0o700
@@ -910,6 +1221,35 @@ def chmod_modes(prog, sl, lib, rep):
 REPLACING = ('::with_extension', '::with_file_name', '::set_extension', '::set_file_name', '::with_added_extension', '::add_extension')
 
 
+def path_pushes_as_join(prog, sl, f, v):
+    """`let mut p = base.to_path_buf(); p.push(a); p` is `base.join(a)` (std defines join that way).  The slicer renders
+    every append as ('concat', base, pushed, fresh) whatever the appended-to type is, and `OsString::push` / `String::push_str`
+    do NOT insert a separator — so the concat is only read as a join when the local it was built in (in f or a private
+    function f reaches) is a PathBuf appended to by `PathBuf::push` alone.  Anything else is returned unchanged."""
+    if v[0] != 'concat':
+        return v
+    key = _canon(v)
+    hits = []
+    fns = [f] + [g for p, g in sorted(prog.reach([f]).items()) if p != f.path and p in prog.fns]
+    for g in fns:
+        for i, l in enumerate(g.locals):
+            app = sl._appends(g, i)
+            if not app:
+                continue
+            lv = strip(sl.inline_deep(sl.local(g, i)))
+            if lv[0] == 'concat' and _canon(lv) == key:
+                hits.append((l.get('ty') or '', [c.name for c in app]))
+    if not hits or not all(ty == 'std::path::PathBuf' and all(n == 'std::path::PathBuf::push' for n in names) for ty, names in hits):
+        return v
+    parts = concat_parts(v)
+    if len(parts) < 2:
+        return v
+    out = parts[0]
+    for p in parts[1:]:
+        out = ('call', 'std::path::Path::join', (out, p), None)
+    return out
+
+
 def sbom_path_shape(prog, sl, fnpath, rep):
     """R2: the SBOM path constructor, which the path classes treat as "<layers>/<name>.sbom.<format suffix>", really is
     that: join(base directory, <base name> ++ ".sbom." ++ suffix(format)) with one distinct, separator-free suffix per
@@ -921,7 +1261,7 @@ def sbom_path_shape(prog, sl, fnpath, rep):
         rep.unproven('R2', subj, '-', 'SBOM path constructor not found')
         return
     where = '%s:%d' % (f.file, f.line)
-    v = strip(sl.inline_deep(sl.local(f, 0)))
+    v = path_pushes_as_join(prog, sl, f, strip(sl.inline_deep(sl.local(f, 0))))
     par = lambda x, i: strip(x)[0] == 'param' and strip(x)[1] == f.path and strip(x)[2] == i
     for x in walk(v):
         if x[0] == 'call' and x[1].endswith(REPLACING):
@@ -1008,6 +1348,26 @@ def _decision_switches(fn, sl):
                         edges[nm] = true_tb if (rv[1] != neg) else false_tb
                 out.append((sb, _canon(val[1]), val[2], edges))
             continue
+        if di and di[2] not in RECREATE:
+            # the decision re-encoded as data: `let plan = match action { DeleteLayer => Plan::Recreate, .. }; match plan {..}`
+            # — the matched value is a table over the decision, so each edge of this switch belongs to decision variants
+            sv = strip(_dnorm(sl, sl.place(fn, di[0])))
+            if sv[0] == 'select' and sv[2] in RECREATE and all(rv[0] == 'agg' and rv[1] == di[2] and rv[2] for _, rv in sv[3]):
+                listed = [v for v, _ in t['targets']]
+                tgt = {}
+                for v, tb in t['targets']:
+                    tgt[di[1].get(v, str(v))] = tb
+                for v, nm in di[1].items():
+                    if v not in listed:
+                        tgt[nm] = t['else']
+                edges = {}
+                for names, rv in sv[3]:
+                    for nm in names:
+                        if rv[2] in tgt:
+                            edges[nm] = tgt[rv[2]]
+                if edges:
+                    out.append((sb, _canon(sv[1]), sv[2], edges))
+            continue
         if not di or di[2] not in RECREATE:
             continue
         place, vmap, enum = di
@@ -1020,6 +1380,134 @@ def _decision_switches(fn, sl):
                 edges[nm] = t['else']
         out.append((sb, _canon(sl.place(fn, place)), enum, edges))
     return out
+
+
+def _sel_sig(node):
+    """{decision variant: (adt, variant) the table maps it to}"""
+    out = {}
+    for names, rv in node[3]:
+        for nm in names:
+            out[nm] = (rv[1], rv[2]) if rv[0] == 'agg' else None
+    return out
+
+
+def _decision_selects(v, enum=None):
+    return [x for x in walk(v) if x[0] == 'select' and x[2] in RECREATE and (enum is None or x[2] == enum)]
+
+
+def _specialise(sl, v, key, enum, var):
+    """v with every table over the decision value `key` (of `enum`) replaced by its row for variant `var`"""
+    if not isinstance(v, tuple) or not v or v[0] in ('const', 'param', 'fnitem', 'constitem', 'unknown', 'closure_env', 'upvar'):
+        return v
+    if v[0] == 'select' and v[2] == enum and _canon(v[1]) == key:
+        for names, rv in v[3]:
+            if var in names:
+                return _specialise(sl, rv, key, enum, var)
+        return v
+    changed = False
+    out = []
+    for x in v:
+        if isinstance(x, tuple):
+            y = _specialise(sl, x, key, enum, var)
+            changed = changed or (y is not x)
+            out.append(y)
+        else:
+            out.append(x)
+    if not changed:
+        return v
+    nv = tuple(out)
+    if nv[0] == 'field' and nv[1][0] in ('agg', 'tuple', 'closure', 'phi', 'updated'):
+        return sl._field(nv[1], nv[2])
+    if nv[0] == 'variant' and nv[1][0] in ('agg', 'phi'):
+        return sl._variant(nv[1], nv[2])
+    if nv[0] == 'unwrap' and nv[1][0] == 'agg' and nv[1][2] in ('Ok', 'Some') and len(nv[1][3]) == 1:
+        return nv[1][3][0][1]
+    return nv
+
+
+def _dnorm(sl, v):
+    """v with private helpers opened when that is what makes a table over a decision visible (`plan_for(action)`)"""
+    if _decision_selects(v):
+        return v
+    if any(x[0] == 'call' and x[1] in sl.prog.fns for x in walk(v)):
+        iv = sl.inline_deep(v)
+        if iv != v and _decision_selects(iv):
+            return iv
+    return v
+
+
+def _reencoder(prog, sl, E, f):
+    """(enum, rows) when f (a closure or a private function) only *re-encodes* a decision as data: it has no effect of
+    its own and what it returns is a table over the decision whose rows are literal variants of another type —
+    `.map(|(action, cause)| match action { DeleteLayer => Plan::Recreate(..), KeepLayer => Plan::Keep(..) })`,
+    `fn plan_for(action) -> Plan`.  What is done about the decision is then whatever the function that runs f does
+    with the result."""
+    from .lib.effects import MUTATING
+    sws = _decision_switches(f, sl)
+    if not sws:
+        return None
+    rv = strip(sl.inline_deep(sl.local(f, 0)))
+    if rv[0] != 'select' or rv[2] not in RECREATE or any(en != rv[2] for _, _, en, _ in sws):
+        return None
+    sig = _sel_sig(rv)
+    if any(x is None or not x[1] for x in sig.values()):
+        return None
+    if any(e.kind in MUTATING or e.kind in ('CALLBACK', 'RECURSION') for e in E.expand(f, 'may')):
+        return None
+    return rv[2], sig
+
+
+def _tables_of(sl, g):
+    """tables over a decision that g hands to a call or switches on: [select value]"""
+    out = []
+    for c in g.calls:
+        for a in c.args:
+            out.extend(_decision_selects(_dnorm(sl, sl.operand(g, a))))
+    for sb, blk in enumerate(g.blocks):
+        t = blk['t']
+        if t['t'] == 'switch':
+            di = _discr_info(g, sb, t['o'])
+            if di:
+                out.extend(_decision_selects(_dnorm(sl, sl.place(g, di[0]))))
+    return out
+
+
+def _reencoded_decisions(prog, sl, g, reenc):
+    """decisions re-encoded by a closure / private function that g runs (see _reencoder), located at the call that runs
+    it: ([(call block, key, enum, edges)], {re-encoder path: [linked?, ..] per run}).  `key` is the decision value in
+    g's terms: for a function, the subject of the table its call evaluates to; for a closure, the subject of the tables
+    (same decision type, same rows) that g hands on / switches on — a closure whose table reaches nothing in g is not
+    linked (and stays undecided)."""
+    out, runs = [], {}
+    tables = None
+    for c in g.calls:
+        if c.indirect:
+            continue
+        cands = []
+        if c.name in reenc and prog.fns[c.name].kind != 'Closure':
+            cands.append((c.name, True))
+        for a in c.args:
+            x = strip(sl.operand(g, a))
+            if x[0] == 'closure' and x[1] in reenc:
+                cands.append((x[1], False))
+        for path, is_fn in cands:
+            enum, sig = reenc[path]
+            key = None
+            if c.target is not None and c.dest and len(c.dest) == 1:
+                if is_fn:
+                    rv = strip(sl.inline_deep(sl.local(g, c.dest[0])))
+                    if rv[0] == 'select' and rv[2] == enum and _sel_sig(rv) == sig:
+                        key = _canon(rv[1])
+                else:
+                    if tables is None:
+                        tables = _tables_of(sl, g)
+                    keys = {_canon(x[1]) for x in tables if x[2] == enum and _sel_sig(x) == sig}
+                    if len(keys) == 1 and len([1 for q in g.calls for a in q.args if strip(sl.operand(g, a))[:2] == ('closure', path)]) == 1:
+                        key = keys.pop()
+            runs.setdefault(path, []).append(key is not None)
+            if key is not None:
+                out.append((c.bb, key, enum, {nm: c.target for nm in sig}))
+    return out, runs
 
 
 def _cls_short(c):
@@ -1055,7 +1543,11 @@ def recreate_decisions(prog, sl, E, EM, rep, mk_paths):
     DeleteLayer, Recreate, RecreateLayer), every way from that decision to a successful return runs a complete, checked
     deletion of *this* layer: DIR (not by std's remove_dir_all), TOML and the SBOM file of every format.  Decided on the
     CFG of the function that takes the decision, with the other switches on the same decision value held consistent,
-    and on the MUST effects of each call in the terms of the public entry point."""
+    and on the MUST effects of each call in the terms of the public entry point.
+    A decision that is re-encoded as data (a table over the decision: `match action { DeleteLayer => Plan::Recreate, .. }`
+    as a value, in a closure handed to a combinator, or in a private helper) is followed to where the data is consumed:
+    a switch on the table is a decision switch, a call that is handed the table is judged with the row of the variant
+    under consideration, and a pure re-encoder's decision is located at the call that runs it (_reencoded_decisions)."""
     all_variants = None
     adt = prog.adt('libcnb_data::sbom::SbomFormat')
     if adt:
@@ -1070,15 +1562,38 @@ def recreate_decisions(prog, sl, E, EM, rep, mk_paths):
         is_ld = lambda v, ep=entry.path: v[0] == 'field' and v[2] == 'layers_dir' and strip(v[1])[0] == 'param' and strip(v[1])[1] == ep and strip(v[1])[2] == 0
         is_ln = lambda v, ep=entry.path: v[0] == 'param' and v[1] == ep and v[2] == 1
         LP = mk_paths(is_ld, is_ln)
-        deciders = [g for _, g in sorted(prog.reach([entry]).items()) if g.crate == 'libcnb' and _decision_switches(g, sl)]
+        reach_fns = [g for _, g in sorted(prog.reach([entry]).items()) if g.crate == 'libcnb']
+        own = {g.path: _decision_switches(g, sl) for g in reach_fns}
+        # a closure / private function that only re-encodes the decision as data hands the decision to the function
+        # that runs it
+        reenc = {}
+        for g in reach_fns:
+            if g.path != entry.path and (g.kind == 'Closure' or g.vis != 'public') and own[g.path]:
+                r = _reencoder(prog, sl, E, g)
+                if r:
+                    reenc[g.path] = r
+        cdec, runs = {}, {}
+        if reenc:
+            for g in reach_fns:
+                if g.kind != 'Closure' and g.path not in reenc:
+                    ds, rn = _reencoded_decisions(prog, sl, g, reenc)
+                    if ds:
+                        cdec[g.path] = ds
+                    for pth, flags in rn.items():
+                        runs.setdefault(pth, []).extend(flags)
+        linked = {pth for pth, flags in runs.items() if flags and all(flags)}
+        deciders = [g for g in reach_fns if own[g.path] or cdec.get(g.path)]
         seen_r2 = set()
         for g in deciders:
             rep.analysed(g)
-            sws = _decision_switches(g, sl)
-            if g.kind == 'Closure':
+            sws = own[g.path] + cdec.get(g.path, [])
+            if g.path in linked:
+                continue        # re-encoded as data: decided in the function(s) that run g, at the call that runs it
+            if g.kind == 'Closure' or g.path in reenc:
                 for sb, key, enum, edges in sws:
                     rep.unproven('R5', '%s/%s::%s' % (short, enum.rsplit('::', 1)[-1], RECREATE[enum]), '%s:%d' % (g.file, g.line),
-                                 'the decision is taken inside a closure (%s): not analysed' % g.path)
+                                 'the decision is taken inside a closure (%s): not analysed' % g.path if g.kind == 'Closure' else
+                                 '%s hands the decision on as data, and what its callers do with that data could not be followed' % g.path)
                 continue
             # contexts: parameter bindings of g in the entry's terms
             if g.path == entry.path:
@@ -1098,31 +1613,57 @@ def recreate_decisions(prog, sl, E, EM, rep, mk_paths):
                     rep.unproven('R5', '%s/context' % short, '%s:%d' % (g.file, g.line), 'no call context of %s found from the entry point' % g.path)
                     continue
             success = {s.bb for s in EM.sites(g)}
+            checked = [k for k in g.calls if not k.indirect and (prog.callee_fns(k) or vocab_lookup(k)) and _ok_on_success(prog, g, k, success)]
+            argvals = {k.bb: [_dnorm(sl, sl.operand(g, a)) for a in k.args] for k in checked}
+            from .lib.paths import sbom_formats_covered
             for m in ctxs:
-                # what each call of g must have done when g goes on successfully
-                cls_bbs = {'DIR': set(), 'TOML': set(), 'SBOM': set()}
-                tree_only = set()
-                unk_bbs = set()
-                for k in g.calls:
-                    if k.indirect or not (prog.callee_fns(k) or vocab_lookup(k)):
-                        continue
-                    if not _ok_on_success(prog, g, k, success):
-                        continue
-                    effs = []
-                    EM._expand_call(g, k, None, 'must', m, (), (g.path,), effs)
-                    rem = [e for e in effs if e.kind in REMOVING]
-                    kinds = [(e.kind, LP.classify(e.path)) for e in rem]
-                    if any(c is None for kd, c in kinds):
-                        unk_bbs.add(k.bb)
-                    if any(c == ('DIR',) and kd != 'REMOVE_TREE' for kd, c in kinds):
-                        cls_bbs['DIR'].add(k.bb)
-                    elif any(c == ('DIR',) for kd, c in kinds):
-                        tree_only.add(k.bb)
-                    if any(kd == 'REMOVE_FILE' and c == ('TOML',) for kd, c in kinds):
-                        cls_bbs['TOML'].add(k.bb)
-                    from .lib.paths import sbom_formats_covered
-                    if all_variants and sorted(sbom_formats_covered([e for e in rem if e.kind == 'REMOVE_FILE'], LP.classify)) == all_variants:
-                        cls_bbs['SBOM'].add(k.bb)
+                # what each call of g must have done when g goes on successfully; a call that is handed a table over the
+                # decision (`executor(match action { DeleteLayer => Plan::Recreate, .. })`) is judged with the row of the
+                # decision variant under consideration (spec)
+                base_effs, cls_cache = {}, {}
+
+                def call_effs(k, spec, m=m, base_effs=base_effs):
+                    if spec is not None and not vocab_lookup(k):
+                        key, enum, var = spec
+                        vals = argvals[k.bb]
+                        if any(_canon(x[1]) == key for v in vals for x in _decision_selects(v, enum)):
+                            effs = []
+                            for g2 in prog.callee_fns(k):
+                                m2 = EM.call_mapping(g, k, g2, m)
+                                for i, v in enumerate(vals):
+                                    if i < g2.argc:
+                                        sv = _specialise(sl, v, key, enum, var)
+                                        if sv is not v:
+                                            m2[(g2.path, i)] = EM.subst(sv, m)
+                                effs.extend(EM.expand(g2, 'must', None, m2, (Link(k, m),), (g.path,)))
+                            return effs
+                    if k.bb not in base_effs:
+                        effs = []
+                        EM._expand_call(g, k, None, 'must', m, (), (g.path,), effs)
+                        base_effs[k.bb] = effs
+                    return base_effs[k.bb]
+
+                def classes(spec, cls_cache=cls_cache, call_effs=call_effs):
+                    if spec in cls_cache:
+                        return cls_cache[spec]
+                    cls_bbs = {'DIR': set(), 'TOML': set(), 'SBOM': set()}
+                    tree_only = set()
+                    unk_bbs = set()
+                    for k in checked:
+                        rem = [e for e in call_effs(k, spec) if e.kind in REMOVING]
+                        kinds = [(e.kind, LP.classify(e.path)) for e in rem]
+                        if any(c is None for kd, c in kinds):
+                            unk_bbs.add(k.bb)
+                        if any(c == ('DIR',) and kd != 'REMOVE_TREE' for kd, c in kinds):
+                            cls_bbs['DIR'].add(k.bb)
+                        elif any(c == ('DIR',) for kd, c in kinds):
+                            tree_only.add(k.bb)
+                        if any(kd == 'REMOVE_FILE' and c == ('TOML',) for kd, c in kinds):
+                            cls_bbs['TOML'].add(k.bb)
+                        if all_variants and sorted(sbom_formats_covered([e for e in rem if e.kind == 'REMOVE_FILE'], LP.classify)) == all_variants:
+                            cls_bbs['SBOM'].add(k.bb)
+                    cls_cache[spec] = (cls_bbs, tree_only, unk_bbs)
+                    return cls_cache[spec]
                 # R2 on the executions that create or recreate the layer (every decision answers "throw it away"; keeping /
                 # updating an existing layer is not part of this property): every mutating effect stays inside the layer
                 not_recreate = set()
@@ -1168,6 +1709,7 @@ def recreate_decisions(prog, sl, E, EM, rep, mk_paths):
                                     pruned.add((sb2, t))
                     tb = edges[var]
                     where = '%s:%d' % (g.file, g.blocks[sb]['t'].get('ln') or g.line)
+                    cls_bbs, tree_only, unk_bbs = classes((key, enum, var))
                     missing = []
                     for cls in ('DIR', 'TOML', 'SBOM'):
                         D = cls_bbs[cls]
@@ -1175,7 +1717,10 @@ def recreate_decisions(prog, sl, E, EM, rep, mk_paths):
                         after = _reach_pruned(g, tb, D, pruned)
                         if before and any(s in after and s not in D for s in success):
                             missing.append(cls)
-                    if not missing:
+                    if missing and any(_canon(x[1]) == key for x in _decision_selects(_dnorm(sl, sl.local(g, 0)), enum)):
+                        rep.unproven('R5', subj, where, '%s returns the decision %s::%s to its callers as data; what they do with it could '
+                                     'not be followed (%s not removed inside %s)' % (g.path, enum.rsplit('::', 1)[-1], var, ', '.join(missing), g.path))
+                    elif not missing:
                         rep.holds('R5', subj, where, 'every successful continuation after the decision %s has removed DIR, TOML and the SBOM file '
                                   'of every format of this layer (checked calls)' % var)
                     elif unk_bbs & _reach_pruned(g, tb, (), pruned) and not (tree_only & _reach_pruned(g, tb, (), pruned)):
